@@ -218,3 +218,12 @@ Definition path_index_out_of_range (p : packet) : bool :=
     (N.of_nat (length segs) <=? ci) || (N.of_nat (length (flat_map s_hops segs)) <=? ch)
   | _ => false
   end.
+
+(** The length fields found IN THE BYTES of an encoded packet, compared as numbers with the true
+    sizes ([hs] = size of the encoded header, the rest of [b] is the payload): HdrLen (byte 5,
+    4-byte units), PayloadLen (bytes 6..8), and for UDP (kind 1) the Length field (bytes 4..6 of the
+    datagram).  A length that does not fit its field cannot satisfy this, whatever was written. *)
+Definition length_fields_match (kind : N) (b : list N) (hs : N) : bool :=
+  let true_payload := len_ b - hs in
+  (hs <=? len_ b) && (be b 5 1 * 4 =? hs) && (be b 6 2 =? true_payload)
+  && (if kind =? 1 then be b (hs + 4) 2 =? true_payload else true).
